@@ -30,18 +30,31 @@ class P(Prop):
                      "Model.SysResult Check.Check_C18 Check.Check_C19 Check.Check_C10.\nOpen Scope Q_scope.")
     RULE = ("electric plants (1-3 switchboards, every source class, storage, PTI/PTO, consumers; engines on diesel, HFO, VLSFO, "
             "methanol, natural gas in three cycles, dual fuel incl. pilot of the main fuel's kind; 1-2 extra emission species on "
-            "some engines) and mechanical plants (1-3 shaft lines): after the balance the system result is compared, figure by "
+            "some engines), mechanical plants (1-3 shaft lines) and mechanical propulsion with an independent electric plant asked through "
+            "the combined system (its two parts against the subsystems' own totals, fuel labels against the requested specification): after the balance the system result is compared, figure by "
             "figure, with the model's accumulation of the implementation's own per-component results; the detail table is "
             "compared row by row; each plant is built a second time with its component list permuted. IMO and FuelEU factors. "
             "Non-trivial = >= 2 fuel consumers")
-    QUICK_N = 120
+    QUICK_N = 140
     THOROUGH_N = 3000
     SHARD = 30
 
     def gen(self, rng, tier, override=None):
         out = []
         for _ in range(self.n_cases(tier, override)):
-            kind = rng.choice(["electric", "electric", "mechanical"])
+            kind = rng.choice(["electric", "electric", "electric", "mechanical", "mechanical", "combined"])
+            if kind == "combined":
+                # mechanical propulsion with an independent electric plant, asked for its result through the combined system
+                e = sysrun.gen_electric_case(rng, max_swb=2)
+                for d in e["plant"]["comps"]:
+                    if pg.kind_of(d["cls"]) == "PtiPto":
+                        d["cls"] = "battery"
+                m = sysrun.gen_mechanical_case(rng, n=e["inp"]["n"])
+                m["plant"]["mech"] = [d for d in m["plant"]["mech"] if d["cls"] != "ptipto"]
+                m["inp"]["comps"] = [ci for ci in m["inp"]["comps"] if "shaft" not in ci]
+                m["inp"]["dt"] = e["inp"]["dt"]
+                out.append({"kind": kind, "elec": e, "mech": m, "fuel_spec": rng.choice(["IMO", "FUEL_EU_MARITIME", "FUEL_EU_MARITIME"])})
+                continue
             c = sysrun.gen_electric_case(rng) if kind == "electric" else sysrun.gen_mechanical_case(rng)
             c["kind"] = kind
             if kind == "electric" and rng.random() < 0.3:
@@ -103,9 +116,40 @@ class P(Prop):
             per.append({"id": gid, "names": [o.name for o in comps], "res": rs, "rowed": [bool(rowed(None, o)) for o in comps]})
         return {"total": total, "detail": detail, "groups": per, "no_detail": no_detail}
 
+    def run_combined(self, case):
+        import numpy as np
+        from feems.components_model.utility import IntegrationMethod
+        from feems.exceptions import InputError
+        from feems.fuel import FuelSpecifiedBy
+        from feems.system_model import MechanicalPropulsionSystemWithElectricPowerSystem
+        spec = FuelSpecifiedBy[case["fuel_spec"]]
+        e, m = case["elec"], case["mech"]
+        dt = np.array([float(x) for x in e["inp"]["dt"]])
+        try:
+            with np.errstate(all="ignore"):
+                es, _ = pg.build_electric_system(e["plant"])
+                ms, mo = pg.build_mechanical_system(m["plant"])
+                pg.apply_electric_inputs(es, _, e["plant"], e["inp"])
+                pg.apply_mechanical_inputs(ms, mo, m["plant"], m["inp"])
+                ship = MechanicalPropulsionSystemWithElectricPowerSystem("ship", es, ms)
+                ship.do_power_balance_calculation()
+                res = ship.get_fuel_energy_consumption_running_time(time_interval_s=dt, integration_method=IntegrationMethod.sum_with_time,
+                                                                    fuel_specified_by=spec)
+                # the two subsystems asked directly (their totals are what the electric / mechanical streams check)
+                de = es.get_fuel_energy_consumption_running_time(fuel_specified_by=spec)
+                dm = ms.get_fuel_energy_consumption_running_time(fuel_specified_by=spec)
+        except (InputError, StopIteration, ValueError) as ex:
+            return {"rejected": type(ex).__name__ + ": " + str(ex)[:100]}
+        lab = lambda r: sorted({f.fuel_specified_by.name for f in r.multi_fuel_consumption_total_kg.fuels})
+        return {"combined": {"elec": sysrun.snap(res.electric_system), "mech": sysrun.snap(res.mechanical_system),
+                             "labels": lab(res.electric_system) + lab(res.mechanical_system)},
+                "direct": {"elec": sysrun.snap(de), "mech": sysrun.snap(dm)}}
+
     def run(self, case):
         from feems.exceptions import InputError
         kind = case["kind"]
+        if kind == "combined":
+            return self.run_combined(case)
         key = "comps" if kind == "electric" else "mech"
         try:
             a = self.run_one(case, case["plant"], case["inp"])
@@ -123,7 +167,7 @@ class P(Prop):
         return {"a": a, "b_total": b["total"], "b_detail": b["detail"]}
 
     def term(self, case, obs):
-        if "rejected" in obs:
+        if "rejected" in obs or case["kind"] == "combined":
             return "true"
         n = len(scalar_fields())
         a = obs["a"]
@@ -138,6 +182,20 @@ class P(Prop):
 
     def oracle(self, case, obs):
         if "rejected" in obs:
+            return None
+        if case["kind"] == "combined":
+            import math
+            for side in ("elec", "mech"):
+                a_, b_ = obs["combined"][side], obs["direct"][side]
+                if any(isinstance(x, float) and (math.isnan(x) or math.isinf(x)) for x in b_["scalars"] + b_["co2"]):
+                    continue
+                d = sysrun.figures_diff(a_, b_)
+                if d:
+                    return (f"the {side} part of the combined system's result differs from the totals of that subsystem's switchboards / "
+                            f"shaft lines: {d[:3]}")
+            bad = [l for l in obs["combined"]["labels"] if l != case["fuel_spec"]]
+            if bad:
+                return f"combined system asked for {case['fuel_spec']} factors reports fuels specified by {bad}"
             return None
         a = obs["a"]
         tot = sysrun.figures(a["total"])
@@ -195,11 +253,17 @@ class P(Prop):
         return None
 
     def nontrivial(self, case, obs):
+        if case["kind"] == "combined":
+            return True
         comps = case["plant"]["comps" if case["kind"] == "electric" else "mech"]
         return sum(1 for d in comps if d["cls"] in ("genset", "genset_df", "genset_rect", "fuelcell", "coges", "main_engine", "main_engine_gb")) >= 2
 
     def tags(self, case, obs):
         t = ["kind=" + case["kind"], "spec=" + case["fuel_spec"]]
+        if case["kind"] == "combined":
+            if "rejected" in obs:
+                t.append("rejected:" + obs["rejected"].split(":")[0])
+            return t
         if case.get("look_alike_gensets"):
             t.append("two-gensets-of-equal-rating-and-output-with-different-fuels")
         if case.get("same_name_across_categories"):
